@@ -155,6 +155,10 @@ class Reporter:
             self.ctx.note("divergences_owned_by_the_sibling_property", dict(self.other))
 
 
+def _jc(consts):
+    return {k: (sorted(v) if isinstance(v, (set, frozenset)) else v) for k, v in consts.items()}
+
+
 def _acts(states):
     return [dict(s["act"]) for s in states[1:]]
 
@@ -227,7 +231,7 @@ def replay_graph(ctx, pid, consts, rep, max_walks=None, label="graph"):
             rep.report("C12", m["signature"],
                        "%s. Replay: after %s the specification (what C12 requires) and the code differ: %s"
                        % (WHAT[m["signature"]], m["action"]["name"], _jsonable_div(m)["diff"]),
-                       {"kind": "walk", "constants": consts, "actions": acts[:m["step"]],
+                       {"kind": "walk", "constants": _jc(consts), "actions": acts[:m["step"] - 1],
                         "repairs": {str(x["step"]): {"signature": x["signature"], "info": x["repair"]} for x in met if x["step"] < m["step"]},
                         "divergence": _jsonable_div(m)})
         if div:
@@ -236,7 +240,7 @@ def replay_graph(ctx, pid, consts, rep, max_walks=None, label="graph"):
                 else ("C13" if "_close_log" in div["diff"] else _owner_by_action(div["action"], states[div["step"]]))
             rep.report(own, div["signature"],
                        "replay diverges at step %d (%s): %s" % (div["step"], div["action"], _jsonable_div(div)["diff"]),
-                       {"kind": "walk", "constants": consts, "actions": acts[:div["step"]],
+                       {"kind": "walk", "constants": _jc(consts), "actions": acts[:div["step"] - 1],
                         "repairs": {str(x["step"]): {"signature": x["signature"], "info": x["repair"]} for x in met},
                         "divergence": _jsonable_div(div)})
         elif not met:
@@ -328,7 +332,7 @@ def validate_recorded(ctx, pid, consts, n_traces, rep, max_events=60):
         own = _trace_owner(ev, before, sig)
         what = (WHAT[sig] + ". " if sig in WHAT else "") + \
             "recorded execution rejected by the specification at event %d: %s" % (prog[i], {a: b for a, b in ev.items() if a != "post"})
-        rep.report(own, sig, what, {"kind": "trace", "constants": consts, "events": t[:prog[i]]})
+        rep.report(own, sig, what, {"kind": "trace", "constants": _jc(consts), "events": t[:prog[i]]})
     ctx.sample({"direction": "code->spec", "constants": name(consts),
                 "events": [{k: v for k, v in e.items() if k != "post"} for e in traces[0][:14]]})
     ctx.traces_validated += accepted
